@@ -47,7 +47,7 @@ CPP_TO_AID = {v[0]: k for k, v in ARCHS.items()}
 CPP_TO_AID.update({"xsimd::emulated<128ul>": "emu128", "xsimd::emulated<256ul>": "emu256"})
 # the architectures whose header files define kernels of their own (quick tier)
 DEFINING_ARCHS = ["sse2", "sse3", "ssse3", "sse4_1", "sse4_2", "avx", "avx2", "fma3_sse", "fma3_avx", "fma3_avx2", "fma4",
-                  "avx512f", "avx512dq", "avx512bw", "avx512vbmi", "avx512vbmi2"]
+                  "avx512f", "avx512dq", "avx512bw", "avx512vbmi", "avx512vbmi2", "emu128"]
 X86_ARCHS = [a for a in ARCHS if not a.startswith("emu")]
 
 
